@@ -79,7 +79,7 @@ theorem set_rel (hs : TSim ts1 ts2 R) {c1 : CacheG T1} {c2 : CacheG T2} (h : CRe
   have h1 : CRel R { c1 with data := ainsert c2.data k v } { c2 with data := ainsert c2.data k v } :=
     ⟨h.limit, rfl, h.lru, h.timers⟩
   obtain ⟨h2, h3⟩ := lruAdd_rel hs h1 k
-  have h4 := hs _ _ (if ahas c2.data k then C12.Op.move k t else C12.Op.set k v t) h2.timers
+  have h4 := hs _ _ (C12.Op.set k v t) h2.timers
   dsimp only
   rw [h3, h4.2]
   exact ⟨expire_rel hs _ ⟨h2.limit, h2.data, h2.lru, h4.1⟩, rfl⟩
